@@ -15,7 +15,10 @@ def run(chk):
                 "Plus SignMessageBlock + Randomize + Verify over random blocks of every length up to the number of bases. "
                 "Plus CLSign.tla: the ISSUER under every scripted random stream (vTilde chunk all zeros / all ones / other; up to 2 (quick) or 3 (thorough) candidate "
                 "chunks fixing the top three bits of the prime offset, all-zero and all-one chunks included): invariants SignerSound (e a prime of its interval), VInRange, "
-                "FirstPrime; the Walk = TRUE variant (step upwards from a failed candidate without re-checking the upper end) must violate SignerSound. Replay: "
+                "FirstPrime; SysParams.tla: the three parameter sets in use satisfy the constraints of the Idemix specification and leave room, below every size bound of the "
+                "verifiers, for the largest honest response (lengths; the arithmetic lemma is checked on small exponents), and on a grid of base parameters the derivation rule "
+                "yields admissible parameters exactly when LePrime < Lm + 2 - every derived set is compared with gabikeys.MakeDerivedParameters / DefaultSystemParameters and "
+                "the bounds of the defaults are re-evaluated with the real numbers; the Walk = TRUE variant (step upwards from a failed candidate without re-checking the upper end) must violate SignerSound. Replay: "
                 "crypto/rand.Reader is replaced by the scripted stream during SignMessageBlock on the real keys; e must be a prime of the real interval, v in "
                 "[2^(lv-1), 2^lv), the exponent must be the first scripted candidate that is prime, the signature must verify. Non-trivial = distinct forged case / stream.")
     chk.assumptions = ["[M] vs [H(M)] and trailing-zero blocks are the same block (inherent to the scheme; the spec treats them as equal)",
@@ -57,6 +60,18 @@ def run(chk):
     if not res.get("counts", {}).get("scripted-prime=true") or not res.get("counts", {}).get("scripted-prime=false"):
         raise vplib.Machinery("scripted streams are vacuous: %s" % res.get("counts"))
     chk.add_replay(res, "issuer_under_scripted_randomness")
+    # the system parameters behind the interval of e and every size bound (SysParams.tla)
+    recs = []
+    for gflag in ("FALSE", "TRUE"):
+        g = vplib.tlc_mc("SysParamsGen", "SysParams.%s.cfg" % gflag, workers=1, timeout=300)
+        recs += sorted(set(g.tagged_raw_json("P")))
+        chk.add_tlc(g, "SysParamsGen", "SysParams.%s.cfg" % gflag, "DefaultsAdmissible, GridCondition, Lemma")
+    pp = os.path.join(vplib.sub("c05"), "params.ndjson")
+    open(pp, "w").write("\n".join(recs) + "\n")
+    res = vplib.vh("cl", ["params", "--in", pp, "--seed", str(chk.seed)], timeout=300)
+    if res["evaluations"] != len(recs) or len(recs) < 90:
+        raise vplib.Machinery("parameter replay: %d of %d" % (res["evaluations"], len(recs)))
+    chk.add_replay(res, "system_parameters")
     chk.exhaustive = True
 
 def replay(chk, path):
